@@ -2061,7 +2061,7 @@ package formula
 //@ spec rec refs(v Expression) []string := is(v, *Identifier) ? unit(as(v, *Identifier).Value) : is(v, *SelectorExpression) ? unit(joinS(names(v), ".")) : is(v, *PrefixUnaryExpression) ? refs(as(v, *PrefixUnaryExpression).Operand) : is(v, *BinaryExpression) ? refs(as(v, *BinaryExpression).Left) ++ refs(as(v, *BinaryExpression).Right) : is(v, *ParenthesizedExpression) ? refs(as(v, *ParenthesizedExpression).Expression) : is(v, *TypeOfExpression) ? refs(as(v, *TypeOfExpression).Expression) : is(v, *ConditionalExpression) ? refs(as(v, *ConditionalExpression).Condition) ++ refs(as(v, *ConditionalExpression).WhenTrue) ++ refs(as(v, *ConditionalExpression).WhenFalse) : is(v, *CallExpression) ? refsList(as(v, *CallExpression).Arguments, llen(as(v, *CallExpression).Arguments)) : is(v, *ArrayLiteralExpression) ? refsList(as(v, *ArrayLiteralExpression).Elements, llen(as(v, *ArrayLiteralExpression).Elements)) : empty([]string)
 //@ spec llen(l *NodeList[Expression]) int := l == nil ? 0 : len(l.nodes)
 //@ spec refsOKList(l *NodeList[Expression], n int) bool := forall j int :: 0 <= j && j < n ==> refsOK(l.nodes[j])
-//@ spec rec refsOK(v Expression) bool := is(v, *Identifier) ? true : is(v, *SelectorExpression) ? named(v) : is(v, *PrefixUnaryExpression) ? refsOK(as(v, *PrefixUnaryExpression).Operand) : is(v, *BinaryExpression) ? (refsOK(as(v, *BinaryExpression).Left) && refsOK(as(v, *BinaryExpression).Right)) : is(v, *ParenthesizedExpression) ? refsOK(as(v, *ParenthesizedExpression).Expression) : is(v, *TypeOfExpression) ? refsOK(as(v, *TypeOfExpression).Expression) : is(v, *ConditionalExpression) ? (refsOK(as(v, *ConditionalExpression).Condition) && refsOK(as(v, *ConditionalExpression).WhenTrue) && refsOK(as(v, *ConditionalExpression).WhenFalse)) : is(v, *CallExpression) ? refsOKList(as(v, *CallExpression).Arguments, llen(as(v, *CallExpression).Arguments)) : is(v, *ArrayLiteralExpression) ? refsOKList(as(v, *ArrayLiteralExpression).Elements, llen(as(v, *ArrayLiteralExpression).Elements)) : is(v, *LiteralExpression)
+//@ spec rec refsOK(v Expression) bool := is(v, *Identifier) ? true : is(v, *SelectorExpression) ? named(v) : is(v, *PrefixUnaryExpression) ? refsOK(as(v, *PrefixUnaryExpression).Operand) : is(v, *BinaryExpression) ? (refsOK(as(v, *BinaryExpression).Left) && refsOK(as(v, *BinaryExpression).Right)) : is(v, *ParenthesizedExpression) ? refsOK(as(v, *ParenthesizedExpression).Expression) : is(v, *TypeOfExpression) ? refsOK(as(v, *TypeOfExpression).Expression) : is(v, *ConditionalExpression) ? (refsOK(as(v, *ConditionalExpression).Condition) && refsOK(as(v, *ConditionalExpression).WhenTrue) && refsOK(as(v, *ConditionalExpression).WhenFalse)) : is(v, *CallExpression) ? (named(as(v, *CallExpression).Expression) && refsOKList(as(v, *CallExpression).Arguments, llen(as(v, *CallExpression).Arguments))) : is(v, *ArrayLiteralExpression) ? refsOKList(as(v, *ArrayLiteralExpression).Elements, llen(as(v, *ArrayLiteralExpression).Elements)) : is(v, *LiteralExpression)
 
 //@ frame collector(r *referenceResovle) := r.fields
 
@@ -2092,14 +2092,15 @@ package formula
 //@   loop 1: invariant v.Elements != nil && 0 <= i && i <= len(v.Elements.nodes) && refsOKList(v.Elements, i) && r.fields == old(r.fields) ++ refsList(v.Elements, i)
 //@           decreases len(v.Elements.nodes) - i
 
-// a call contributes its arguments only (the callee position is not a read of a value)
+// a call contributes its arguments only (the callee position is not a read of a value); its
+// callee must be a name or a path - member access on anything else is refused
 //@ func (*referenceResovle).resolveCallExpression
 //@   tags [C10,C08]
 //@   requires r != nil && v != nil && treeok(box(v, *CallExpression))
 //@   assigns collector(r)
 //@   panics never
 //@   decreases v, 0
-//@   ensures[C10] (result == nil) == refsOKList(v.Arguments, llen(v.Arguments))
+//@   ensures[C10] (result == nil) == (named(v.Expression) && refsOKList(v.Arguments, llen(v.Arguments)))
 //@   ensures[C10] result == nil ==> r.fields == old(r.fields) ++ refsList(v.Arguments, llen(v.Arguments))
 //@   loop 1: invariant v.Arguments != nil && 0 <= i && i <= len(v.Arguments.nodes) && refsOKList(v.Arguments, i) && r.fields == old(r.fields) ++ refsList(v.Arguments, i)
 //@           decreases len(v.Arguments.nodes) - i
